@@ -12,6 +12,7 @@ from ..vnet.servers import H1Server, Resp
 import httpcore
 
 DATA = b"PQRSTU"
+DATA_CRLF = b"\r\nQ\nST\r"  # a payload that begins with line-break bytes (a line protocol, a binary frame)
 LIVE = b"live-data"
 
 
@@ -22,7 +23,7 @@ LIVE = b"live-data"
     thorough=[{"flavour": fl, "kind": k, "d": d, "one": o} for fl in ("sync", "async") for k in ("101", "connect")
               for d in range(0, 7) for o in (False, True)],
     example=dict(cut=2, m0=1, m1=2, m2=0, st=1, drain=1, reuse=1),
-    require=("trailing-captured", "data-after-head-read", "live-data-read", "body-drained-first", "switched-on-a-reused-connection"),
+    require=("trailing-captured", "data-after-head-read", "live-data-read", "body-drained-first", "switched-on-a-reused-connection", "payload-begins-with-a-line-break"),
     timeout={"quick": 200, "thorough": 900},
     symbolic="cut: where (relative to the end of the head) the server's bytes are split into reads; m0..m2: max_bytes of the caller's first three reads, each from {1, 2, 64}; one-byte-per-read mode; st: the 2xx status of the CONNECT reply from {200, 201, 204, 299}; drain: whether the caller reads the (empty) response body to its end before it uses the network stream; reuse: whether the switching request re-uses a kept-alive connection and the stream is then held beyond the old keep-alive deadline while the pool serves another request",
     bounds="post-head data of d bytes (shard, 0..6), one cut in [head_end-1, head_end+d] or one byte per read, three sized reads then large reads, 101 and CONNECT with four 2xx statuses, body drained first or not, sync and async",
@@ -55,7 +56,9 @@ def _handover(c: int, ms: list[int], cstatus: tuple[int, bytes], drain: bool, re
     is_async = shard("flavour", "sync") == "async"
     kind = shard("kind", "101")
     d = shard("d", 3)
-    data = DATA[:d]
+    data = (DATA_CRLF if reuse or drain else DATA)[:d]  # (the CR/LF-leading payload rides on the drain / reuse variants)
+    if data[:1] in (b"\r", b"\n"):
+        P.cover("payload-begins-with-a-line-break")
     sizes = (1, 2, 64)
     one = shard("one", False)
     m0, m1, m2 = ms
@@ -150,6 +153,10 @@ def _handover(c: int, ms: list[int], cstatus: tuple[int, bytes], drain: bool, re
     peer = sock.peer
     w = scen.acall(stream.write(b"ping", 5)) if is_async else scen.call(stream.write, b"ping", 5)
     P.check(w.ok and peer.raw_after_switch.endswith(b"ping"), "write-passes-through", "write did not reach the peer")
+    # a live read that finds nothing within its time-out is an ordinary, recoverable event for a socket
+    t = rd(64)
+    P.check(isinstance(t.exc, httpcore.ReadTimeout), "idle-live-read-times-out", lambda: f"idle read: {t.kind()}")
+    P.check(sock.open, "a-timed-out-live-read-leaves-the-connection-open", "connection closed by a read time-out")
     peer.out += LIVE
     sock.pump()
     live = b""
